@@ -542,3 +542,24 @@ package cache
 //@   requires s != nil
 //@   modifies nothing
 //@   ensures result <= ttl && (scoped && s.cfg.ECSMaxTTL > 0 ==> result <= s.cfg.ECSMaxTTL) && (!(scoped && s.cfg.ECSMaxTTL > 0 && ttl > s.cfg.ECSMaxTTL) ==> result == ttl)
+//@
+//@ # ---- C02: shared denial state has kill switches: nothing is recorded or looked up while shared denial (or, for
+//@ # aggressive proofs, RFC 8198 use) is switched off; a proof is filed under the proof family the validator named, an
+//@ # unknown family is not recorded at all; the recorded lifetime is bounded by the delegation cut handed in
+//@ func (*Store).RecordNXDomainCut
+//@   abstract
+//@   nosafety all pre
+//@   assert at call (*middleware/cache.nxDomainCutCache).record#1: !s.sharedDenialDisabled && arg1 == proof && arg2 == deniedName && arg3 == zone && arg4 == cutUntil
+//@   assert at return#1: !result
+//@ func (*Store).RecordDenialProof
+//@   abstract
+//@   nosafety all pre
+//@   assert at call (*middleware/cache.denialProofCache).recordWithKind#1: !s.sharedDenialDisabled && !s.rfc8198Disabled && proof != nil && arg1 == proof && arg2 == zone && arg4 == cutUntil && ((kind == middleware.ValidatedNegativeProofNSEC && arg3 == denialProofNSEC) || (kind == middleware.ValidatedNegativeProofNSEC3 && arg3 == denialProofNSEC3))
+//@   assert at return#1: !result
+//@   assert at return#2: !result
+//@ func (*Store).lookupDenialProofWithExpiry
+//@   abstract
+//@   nosafety all pre
+//@   assert at call (*middleware/cache.denialProofCache).lookupWithMeta#1: !s.sharedDenialDisabled && !s.rfc8198Disabled && arg1 == req
+//@   assert at return#1: !result4
+//@   assert at return#2: !result4
